@@ -205,9 +205,17 @@ Restart(i) ==
 (* inflight: <<>> | <<"append", t, <<e>>>> | <<"batch", t, es>> | <<"read", t, n>>         *)
 (*   (n = the most entries the interrupted consuming read could have committed).          *)
 (* batchAtomic: C08 (all or nothing) instead of C07's "at most the entries in flight".    *)
+(* C07: "followed by at most the entries of operations still in flight": any in-order       *)
+(* selection of the in-flight entries may survive. (For very long batches only prefixes are  *)
+(* enumerated, to keep the choice set finite and small.)                                    *)
+RECURSIVE SubSeqs(_)
+SubSeqs(s) == IF s = <<>> THEN {<<>>}
+              ELSE LET r == SubSeqs(Tail(s)) IN r \cup {<<Head(s)>> \o x : x \in r}
+
 KeptChoices(inflight, batchAtomic) ==
   IF inflight = <<>> \/ inflight[1] = "read" THEN {<<>>}
   ELSE IF batchAtomic THEN {<<>>, inflight[3]}
+  ELSE IF Len(inflight[3]) <= 8 THEN SubSeqs(inflight[3])
   ELSE {SubSeq(inflight[3], 1, k) : k \in 0 .. Len(inflight[3])}
 
 Crash(i, inflight, batchAtomic, kept) ==
